@@ -1,4 +1,4 @@
-import IwModel.Lemmas.JsonPatchEq
+import IwModel.Lemmas.JsonPatchErr
 /-! # C15 — JSON Patch gives the RFC 6902 result and a failed patch changes nothing
 
 `Patch.*` is the model of `src/json/iwjson.c` with the `fix:` commits of design_notes/C15.md (tied to the code by
@@ -102,6 +102,30 @@ theorem binary_error_reported (doc : JVal) (ops : List RawOp) (hne : ops.isEmpty
     (applyBinary doc ops).2 = (patchNode (ofJ doc) ops).2 := by
   simp [applyBinary, hne, finishBinary_snd]
 
+/-! ## What RFC 6902 rejects is reported as an error -/
+
+/-- **Failing patches fail.** For every well-formed tree with distinct member names and every sequence of the six RFC
+    operations: if RFC 6902 rejects the sequence — a `test` that does not hold, a remove / replace / test / from
+    location that does not exist, an index past the end, a parent that is missing or not a container, a move into an
+    own child — at whatever position in the sequence, then `_jbl_patch_node` reports an error.
+    `_partial`: besides the side conditions of `apply_rfc_partial`, the token `-` may only stand where RFC 6901 lets
+    it denote something, i.e. last in the path of add / move / copy (elsewhere the code takes it as the last element:
+    open finding C15-dash-last), and no operation removes the whole document (RFC 6902 leaves the result open). -/
+theorem apply_rfc_err_partial (t : Node) (ops : List Rfc.Op) (h : WF t) (hu : UK t)
+    (hok : ∀ o ∈ ops, OpOk o ∧ opValueUK o ∧ OpStrict o) (hr : Rfc.run (erase t) ops = none) :
+    (runOps t (ops.map toPOp)).2 ≠ .ok :=
+  runOps_err_of_run t ops h hu hok hr
+
+/-- … and through the binary entry point the document then is exactly what it was, with that error reported
+    (property C15, second sentence) -/
+theorem binary_err_partial (doc : JVal) (ops : List Rfc.Op) (hu : UKJ doc)
+    (hok : ∀ o ∈ ops, OpOk o ∧ opValueUK o ∧ OpStrict o) (hr : Rfc.run doc ops = none) :
+    (finishBinary doc (runOps (ofJ doc) (ops.map toPOp))).1 = some doc ∧
+    (finishBinary doc (runOps (ofJ doc) (ops.map toPOp))).2 ≠ .ok := by
+  have := runOps_err_of_run (ofJ doc) ops (wf_ofJ doc) (uk_ofJ doc hu) hok (by rw [erase_ofJ]; exact hr)
+  rw [finishBinary_err doc _ this]
+  exact ⟨rfl, this⟩
+
 /-! ## Missing targets are errors (the part of "fails ⇒ error" that needs no RFC model) -/
 
 /-- `remove` / `replace` of a location that `_jbl_node_find` cannot reach report `JBL_ERROR_PATH_NOTFOUND` and leave
@@ -157,6 +181,24 @@ example : ∃ t', runOps (ofJ docB) (opsB.map toPOp) = (t', .ok) ∧
   obtain ⟨t', h1, h2, _⟩ := apply_rfc_partial (ofJ docB) opsB _ (wf_ofJ _) (uk_ofJ _ docB_uk) hok
     (by rw [erase_ofJ]; exact runB)
   exact ⟨t', h1, h2⟩
+
+/-- non-vacuity of `apply_rfc_err_partial`: on `{"b":{"x":1,"y":2}}` the program `[add /c 3, test /b {"x":1}]` is an
+    instance (the test fails: a member is missing), so the call reports an error -/
+example : (runOps (ofJ docB) ([Rfc.Op.add [[99]] (.int 3), Rfc.Op.test [[98]] (.obj [([120], .int 1)])].map toPOp)).2 ≠ .ok := by
+  apply apply_rfc_err_partial (ofJ docB) _ (wf_ofJ _) (uk_ofJ _ docB_uk)
+  · intro o ho
+    simp only [List.mem_cons, List.not_mem_nil, or_false] at ho
+    rcases ho with rfl | rfl
+    · exact ⟨⟨fun s hs => idxAgree_small s (by simp [opPath] at hs; subst hs; decide),
+              fun s hs => by simp [opFrom] at hs, by simp [opPath]⟩, UKJ.int _,
+            ⟨by simp [opFrom], by simp [opPath], by simp, rfl⟩⟩
+    · exact ⟨⟨fun s hs => idxAgree_small s (by simp [opPath] at hs; subst hs; decide),
+              fun s hs => by simp [opFrom] at hs, by simp [opPath]⟩,
+            UKJ.obj _ (by simp) (by intro q hq; simp at hq; subst hq; exact UKJ.int _),
+            ⟨by simp [opFrom], by simp [opPath], by intro _; simp [opPath, dash], rfl⟩⟩
+  · rw [erase_ofJ]
+    simp [Rfc.run, Rfc.step, docB, Rfc.getAt, Rfc.jsonEq, Rfc.jdepth, Rfc.jsonEqF, Rfc.add, Rfc.updAt, Rfc.addChild,
+      Rfc.put, List.lookup]
 
 /-- witness of finding C15-slash-root on the model: removing the pointer `/` from `{"":0,"a":1}` empties the document, RFC 6902 removes the member `""` -/
 theorem slash_root_witness :
